@@ -29,6 +29,7 @@ def run(tier):
         gen_depth={"quick": {"sess": 3}, "thorough": {"sess": 3}},
         rnd={"quick": [("sess", 40, 200)], "thorough": [("sess", 400, 300), ("txn", 200, 200)]},
         level_text="", pred_doc=DOC,
+        rpc={"quick": [("sess", 4, 80)], "thorough": [("sess", 25, 150)]},
         assumptions=["TLC 1.8 evaluates spec/StoreTrace.tla correctly", "projection copies fields only",
                      "TTL expiry reaches the state machine as a SessionDestroy command (session_ttl.go invalidateSession), "
                      "which is how it is modelled",
